@@ -550,8 +550,9 @@ class Machine:
         lr = (instr + 8) & M32
         if self.ns_hyp_capable() and (self.s['scr'] & 1) and self.is_hyp():
             self.enter_hyp(instr, 0x10)
-        elif self.ns_hyp_capable() and not self.is_secure() and self.mode == MODES['usr'] and (self.s['hcr'] >> 27) & 1 \
-                and ab.kind == 'alignment':
+        elif self.ns_hyp_capable() and not self.is_secure() and (ab.extra.get('s2') or (self.mode == MODES['usr'] and (self.s['hcr'] >> 27) & 1
+                                                                                       and ab.kind == 'alignment')):
+            # a stage-2 abort, or an alignment fault of a Non-secure User mode access with HCR.TGE: routed to Hyp mode, Hyp Trap vector
             self.enter_hyp(instr, 0x14)
         else:
             self.enter_mode_common(MODES['abt'], lr, 0x10, mask_a=True)
